@@ -33,7 +33,9 @@ def hostile_step(rnd, chain, opened, authed):
                     hostile=True)
     if r < 0.96:
         return dict(op="fetchfail", conn=conn, blk=rnd.randint(1, chain - 1), hostile=True)
-    return dict(op="flood", conn=conn, n=rnd.choice([10, 200]), kind=rnd.choice(["ping", "keylist", "chal"]), hostile=True)
+    if r < 0.98:
+        return dict(op="flood", conn=conn, n=rnd.choice([10, 200]), kind=rnd.choice(["ping", "keylist", "chal"]), hostile=True)
+    return dict(op="msg", conn=conn, kind=rnd.choice(["tx_forged", "tx_phantom"]), n=rnd.randint(0, 9), hostile=True)
 
 
 def scenario(rnd, hostile_p=0.5, single=None):
@@ -101,6 +103,39 @@ def catalogue_scenarios(rnd):
     return out
 
 
+def sweep_scenarios(rnd):
+    """(a) every transaction type with 0..4 inputs and outputs of assorted slip types, as a message and inside a fetched block;
+    (b) an attacker announcing more blocks than the fetch quota, failing to serve them, announcing again"""
+    out = []
+    for pat in range(5):
+        for typ in range(9):
+            # some of these transactions are perfectly acceptable (zero-value messages): they are not marked hostile,
+            # both twins receive them; what is checked is that no handler call crashes on any shape
+            steps = [dict(op="open", conn=1), dict(op="auth", conn=1, kind="honest"), dict(op="open", conn=2),
+                     dict(op="msg", conn=1, kind="hash_next", blk=2)]
+            for nin in range(5):
+                for nout in range(5):
+                    n = typ + 9 * nin + 45 * nout + 225 * pat
+                    steps.append(dict(op="msg", conn=2, kind="tx_shape", n=n))
+                    if (nin + nout + pat) % 3 == 0:
+                        steps.append(dict(op="fetched", conn=2, kind="tx_shape", blk=2, n=n))
+            steps += [dict(op="fetched", conn=1, kind="next", blk=2), dict(op="drain")]
+            out.append(dict(g=20, hb=100, chain=4, pre=2, steps=steps))
+    for authd in (False, True):
+        for n1, nf, rounds in ((12, 3, 3), (25, 12, 4), (40, 40, 3), (11, 11, 6)):
+            steps = [dict(op="open", conn=1), dict(op="auth", conn=1, kind="honest"), dict(op="open", conn=2, hostile=True)]
+            if authd:
+                steps.append(dict(op="auth", conn=2, kind="hostile", hostile=True))
+            steps.append(dict(op="msg", conn=1, kind="hash_next", blk=2))
+            for _ in range(rounds):
+                steps.append(dict(op="flood", conn=2, kind="hash", n=n1, hostile=True))
+                steps.append(dict(op="fetchfail", conn=2, kind="nobody", n=nf, hostile=True))
+                steps.append(dict(op="tick", ms=2500))
+            steps += [dict(op="fetched", conn=1, kind="next", blk=2), dict(op="drain")]
+            out.append(dict(g=20, hb=100, chain=4, pre=2, steps=steps))
+    return out
+
+
 def _single(rnd, st, authd):
     steps = [dict(op="open", conn=1), dict(op="auth", conn=1, kind="honest")]
     if st["conn"] == 2:
@@ -115,7 +150,7 @@ def _single(rnd, st, authd):
 
 def scenarios(seed, n):
     rnd = random.Random(seed)
-    out = catalogue_scenarios(rnd)
+    out = catalogue_scenarios(rnd) + sweep_scenarios(rnd)
     for i in range(n):
         out.append(scenario(rnd, hostile_p=rnd.choice([0.0, 0.3, 0.5, 0.7])))
     return out
